@@ -409,8 +409,13 @@ impl Callbacks for Cb {
                     TerminatorKind::Assert { msg, target, .. } => {
                         let k = match &**msg {
                             AssertKind::BoundsCheck { .. } => "bounds",
-                            AssertKind::Overflow(..) => "overflow",
-                            AssertKind::OverflowNeg(..) => "overflow",
+                            AssertKind::Overflow(op, ..) => match op {
+                                mir::BinOp::Sub | mir::BinOp::SubWithOverflow | mir::BinOp::SubUnchecked => "overflow-sub",
+                                mir::BinOp::Mul | mir::BinOp::MulWithOverflow | mir::BinOp::MulUnchecked => "overflow-mul",
+                                mir::BinOp::Shl | mir::BinOp::Shr | mir::BinOp::ShlUnchecked | mir::BinOp::ShrUnchecked => "overflow-shift",
+                                _ => "overflow",
+                            },
+                            AssertKind::OverflowNeg(..) => "overflow-neg",
                             AssertKind::DivisionByZero(..) => "div0",
                             AssertKind::RemainderByZero(..) => "div0",
                             AssertKind::MisalignedPointerDereference { .. } => "ptr",
